@@ -13,13 +13,14 @@ import (
 )
 
 // C16: the real stream codecs vs the Lean framing + stateful msgappv2 model.
-//   reset <local> <remote>
-//   v2 hb                                                     link heartbeat through the msgappv2 encoder
-//   v2 app <wf> <from> <to> <term> <logterm> <index> <commit> <fn.fg.fr.name> <tn.tg.tr.name> <lastidx|-> <payload hex> <ent hex,…|->
-//                                                             → bytes the real encoder wrote for this message (hex)
-//   v2dec <k>                                                 decode the first k bytes (k<0: all) of everything the session's v2 encoder wrote
-//   m <payload hex>                                           any message through messageEncoder → bytes written
-//   mdec <k>                                                  decode the first k bytes of the session's message stream
+//
+//	reset <local> <remote>
+//	v2 hb                                                     link heartbeat through the msgappv2 encoder
+//	v2 app <wf> <from> <to> <term> <logterm> <index> <commit> <fn.fg.fr.name> <tn.tg.tr.name> <lastidx|-> <payload hex> <ent hex,…|->
+//	                                                          → bytes the real encoder wrote for this message (hex)
+//	v2dec <k>                                                 decode the first k bytes (k<0: all) of everything the session's v2 encoder wrote
+//	m <payload hex>                                           any message through messageEncoder → bytes written
+//	mdec <k>                                                  decode the first k bytes of the session's message stream
 func init() { register(&Proto{Name: "stream", Gen: genStream, New: newStream}) }
 
 type grp struct{ n, g, r, name uint64 }
